@@ -196,7 +196,8 @@ func (b *Broker) reconnectWatcher() {
 	clients := []*Client{}
 	b.Lock()
 	for sessionID, client := range b.clients {
-		if _, ok := sessions[sessionID]; !ok {
+		// the listing is keyed by the full store key, like the notifications of the watcher
+		if _, ok := sessions[sessionStoreKey(sessionID)]; !ok {
 			clients = append(clients, client)
 		}
 	}
